@@ -567,6 +567,7 @@ type SpecFun struct {
 	Ret    string
 	Body   Expr
 	File   string
+	Pkg    string // package path of the contract file that declares it ("" for spec files)
 }
 
 type NamedProp struct {
@@ -731,6 +732,7 @@ func (cs *Contracts) LoadFile(path, pkgPath string, specOnly bool) {
 				continue
 			}
 			sf.File = path
+			sf.Pkg = pkgPath
 			if _, dup := cs.SpecFns[sf.Name]; dup {
 				fail(l.line, "duplicate spec fun %s", sf.Name)
 			}
